@@ -329,6 +329,30 @@ pub fn dispatch(p: &[String]) -> String {
                     jstr(&format!("{:?}", r)), sf.map_or("null".to_string(), |x| x.to_string()), sb.map_or("null".to_string(), |x| x.to_string()),
                     nblocks.map_or("null".to_string(), |x| x.to_string()), usable)
         }
+        "from_roundtrip" => {
+            // from_roundtrip <str|string|u32|u64> <hex payload or number>: Operand::from(payload), extracted again
+            use rspirv::dr::Operand;
+            match p[1].as_str() {
+                "str" | "string" => {
+                    let bytes = unhex(if p.len() > 2 { &p[2] } else { "" });
+                    let text = String::from_utf8_lossy(&bytes).into_owned();
+                    let a = Operand::from(text.as_str());
+                    let b = Operand::from(text.clone());
+                    let o = if p[1] == "str" { &a } else { &b };
+                    let back = o.unwrap_literal_string();
+                    format!("{{\"same\": {}, \"agree\": {}, \"back\": {}}}", back == text, a == b, jstr(back))
+                }
+                "u32" => {
+                    let v = p[2].parse::<u64>().unwrap_or(0) as u32;
+                    format!("{{\"same\": {}}}", Operand::from(v).unwrap_literal_bit32() == v)
+                }
+                "u64" => {
+                    let v = p[2].parse::<u64>().unwrap_or(0);
+                    format!("{{\"same\": {}}}", Operand::from(v).unwrap_literal_bit64() == v)
+                }
+                _ => "{\"error\": \"unknown payload type\"}".to_string(),
+            }
+        }
         "reflect" => {
             use rspirv::grammar::reflect as r;
             let n = p[2].parse::<u32>().unwrap();
